@@ -1,4 +1,8 @@
-/-! core-only generic model -/
+/-! Core-only generic scalar layer shared by every numeric model.
+
+A model function is written once over scalar types `α` ("real") and `β` ("complex over α") using the
+standard notation classes plus `Transc` and `CxOps`.  The driver instantiates `α := Float`,
+`β := CF` (pairs of doubles); the proofs instantiate `α := ℝ`, `β := ℂ` (`PbBss/Proofs/RealInst.lean`). -/
 namespace PbBss
 
 class Transc (α : Type) where
@@ -6,16 +10,30 @@ class Transc (α : Type) where
   log : α → α
   sqrt : α → α
 
+/-- `β` is "complex over `α`" -/
+class CxOps (α β : Type) where
+  re : β → α
+  im : β → α
+  conj : β → β
+  ofReal : α → β
+
+/-- left-to-right sum `f 0 + f 1 + …` starting from `0` -/
 def vsum {α} [Add α] [OfNat α 0] {n : Nat} (f : Fin n → α) : α :=
   Fin.foldl n (fun acc i => acc + f i) 0
 
+/-- maximum of a non-empty family (`np.amax`) -/
 def vmax {α} [Max α] {n : Nat} (f : Fin (n+1) → α) : α :=
   Fin.foldl n (fun acc i => max acc (f i.succ)) (f 0)
+
+/-- first index attaining the maximum (`np.argmax`) -/
+def vargmax {α} [LT α] [DecidableLT α] {n : Nat} (f : Fin (n+1) → α) : Fin (n+1) :=
+  Fin.foldl n (fun best i => if f best < f i.succ then i.succ else best) 0
 
 section
 variable {α : Type} [Add α] [Sub α] [Mul α] [Div α] [OfNat α 0] [Max α] [Transc α]
 
-/-- log_pdf_to_affiliation for one observation: K classes, no mask, no clipping -/
+/-- `log_pdf_to_affiliation` for one observation: K+1 classes, no mask, no clipping
+(kept from the design spike; the full version is `Posterior.affiliation`). -/
 def affiliation {K : Nat} (tiny : α) (w lp : Fin (K+1) → α) : Fin (K+1) → α :=
   let m := vmax lp
   let u : Fin (K+1) → α := fun k => Transc.exp (lp k - m) * w k
@@ -23,6 +41,28 @@ def affiliation {K : Nat} (tiny : α) (w lp : Fin (K+1) → α) : Fin (K+1) → 
   fun k => u k / den
 end
 
+/-! ### `Float` instances (driver side) -/
 instance : Transc Float := ⟨Float.exp, Float.log, Float.sqrt⟩
+instance : NatCast Float := ⟨Float.ofNat⟩
+
+/-- complex double -/
+structure CF where
+  re : Float
+  im : Float
+deriving Inhabited
+
+namespace CF
+instance : Add CF := ⟨fun a b => ⟨a.re + b.re, a.im + b.im⟩⟩
+instance : Sub CF := ⟨fun a b => ⟨a.re - b.re, a.im - b.im⟩⟩
+instance : Neg CF := ⟨fun a => ⟨-a.re, -a.im⟩⟩
+instance : Mul CF := ⟨fun a b => ⟨a.re * b.re - a.im * b.im, a.re * b.im + a.im * b.re⟩⟩
+/-- Smith-free textbook division (NumPy uses Smith's algorithm; results agree to rounding) -/
+instance : Div CF := ⟨fun a b =>
+  let d := b.re * b.re + b.im * b.im
+  ⟨(a.re * b.re + a.im * b.im) / d, (a.im * b.re - a.re * b.im) / d⟩⟩
+instance : OfNat CF 0 := ⟨⟨0, 0⟩⟩
+instance : OfNat CF 1 := ⟨⟨1, 0⟩⟩
+instance : CxOps Float CF := ⟨CF.re, CF.im, fun a => ⟨a.re, -a.im⟩, fun x => ⟨x, 0⟩⟩
+end CF
 
 end PbBss
